@@ -513,10 +513,14 @@ class Path:
             return 'raises:' + type(self.exception).__name__
         if self.aborted is not None:
             return 'abort:' + self.aborted.kind
+        if getattr(self, 'bounds_bad', None):
+            # an assumption of the torch shim (index / slice within range - torch would clamp or raise) is not provable on this
+            # path: the path's result is not trusted (callers treat anything but 'returns' as undecided)
+            return 'assumption-unproved:' + self.bounds_bad[0][0]
         return 'returns'
 
 
-def explore(run, hyps=(), max_paths=200, decide_timeout_ms=3000):
+def explore(run, hyps=(), max_paths=200, decide_timeout_ms=3000, enforce_bounds=False):
     """run(ctx) builds fresh symbolic inputs and calls the real function; returns its result.
     Explores every path; returns list[Path].  Raises Unsupported if the code leaves the subset."""
     paths = []
@@ -551,6 +555,14 @@ def explore(run, hyps=(), max_paths=200, decide_timeout_ms=3000):
         p.events = list(c.events)
         p.writes = list(c.writes)
         p.ctx = c
+        p.bounds_bad = []
+        if enforce_bounds and p.exception is None and p.aborted is None:
+            from . import smt as _smt
+            for so in p.side:
+                if so['kind'] == 'bounds':
+                    r_ = _smt.prove(so['hyps'], so['goal'], timeout_ms=10000, want_model=False)
+                    if r_.status != 'unsat':
+                        p.bounds_bad.append((so['name'], so.get('info'), r_.status))
         paths.append(p)
         work.extend(c.pending)
         if len(paths) > max_paths:
